@@ -551,6 +551,9 @@ func (e *Exec) schedule(me *Thread) {
 		}
 		e.cur = t
 		p.Apply(a.v)
+		// every applied operation advances its thread's history hash, also the ones whose Apply has no
+		// effect of its own (a bare Yield): two positions of one thread must never share a state key
+		t.H = mix(t.H, 0x0f, uint64(p.Kind))
 		t.nops++
 		if t == me {
 			return
